@@ -20,8 +20,8 @@ SEGS_QUICK = [("whole",), ("bytes",), ("crlf",), ("cut", 3), ("cut", 5), ("early
 MC = {
     ("C01", "quick"): ["MC_C01_quick", "MC_C01_reent"],
     ("C01", "thorough"): ["MC_C01_quick", "MC_C01_reent", "MC_C01_thorough"],
-    ("C02", "quick"): ["MC_C02_quick", "MC_C02_other"],
-    ("C02", "thorough"): ["MC_C02_quick", "MC_C02_other", "MC_C02_names", "MC_C02_thorough"],
+    ("C02", "quick"): ["MC_C02_quick", "MC_C02_other", "MC_C02_adder"],
+    ("C02", "thorough"): ["MC_C02_quick", "MC_C02_other", "MC_C02_adder", "MC_C02_names", "MC_C02_thorough"],
     ("C03", "quick"): ["MC_C03_quick"],
     ("C03", "thorough"): ["MC_C03_quick", "MC_C03_thorough"],
 }
@@ -66,8 +66,11 @@ def scripts_for(pid, tier, seed, rep):
                     e = dict(a="Lose", clean=bool((i + (c or 0)) % 2))
                     if c is not None:
                         e["cut"] = c
-                    scripts.append(("crash", pre + [e, dict(a="Submit", k="plain"), dict(a="WhenDisc"),
-                                                   dict(a="Submit", k="cb"), dict(a="Submit", k="plain")]))
+                    kinds = ["plain", "again", "submit"]
+                    before = [dict(a="WhenDisc", k=kinds[(i + (c or 0)) % 3])] if (i + (c or 0)) % 2 else []
+                    scripts.append(("crash", pre + before +
+                                    [e, dict(a="Submit", k="plain"), dict(a="WhenDisc", k=kinds[(i + 1 + (c or 0)) % 3]),
+                                     dict(a="Submit", k="cb"), dict(a="Submit", k="plain")]))
     return scripts
 
 
@@ -152,7 +155,10 @@ def run(pid, tier, seed):
 def verdict(pid, rep, traces, meta, res, runs):
     bad = [i for i, x in enumerate(res) if x["matched"] != x["wanted"]]
     if any(x["matched"] < 0 for x in res):
-        rep.broken.append("trace validation produced no verdict:\n" + runs[0].out[-1500:])
+        errs = [r.out for r in runs if "Error" in r.out]
+        out = errs[0] if errs else runs[0].out
+        i = out.find("Error")
+        rep.broken.append("trace validation produced no verdict:\n" + (out[max(0, i - 300):i + 1800] if i >= 0 else out[-1500:]))
         return
     if not bad:
         return
